@@ -90,8 +90,8 @@ def task_month(arg):
         tag = '@m%d.p%d' % (m, i)
         if p.kind == 'exc':
             if not isinstance(p.exc, ValueError):
-                r, mo, _ = core.check(ctx, p, z3.BoolVal(True))
-                t.cand('C01.exception', inp(mo) if mo else {}, 'unexpected %r' % (p.exc,))
+                r, mo, _ = core.check(ctx, p, z3.BoolVal(True), timeout_ms=120000)
+                t.cand('C01.exception', inp(mo) if mo else {'y': 2000, 'm': m, 'd': 1}, 'unexpected %r' % (p.exc,))
                 t.ob('exception-class' + tag, 'sat', 0, bound)
                 continue
             t.reach += 1
@@ -215,9 +215,12 @@ sys.exit(0)
     track = True
     items = [(m, m, YMIN, YMAX, track) for m in range(1, 13)]
     # one month-name spelling per month end to end (which one rotates with the seed)
-    for m in (range(1, 13) if tier == 'thorough' else [1 + (chk.seed + 3 * k) % 12 for k in range(4)]):
+    for m in range(1, 13):
         sp = spellings(m)
-        items.append((m, sp[(chk.seed + m) % len(sp)], YMIN, YMAX, False))
+        if tier == 'thorough':
+            items.append((m, sp[(chk.seed + m) % len(sp)], YMIN, YMAX, False))
+        else:
+            items.append((m, sp[(chk.seed + m) % len(sp)], 1500, 2100, False))
     if tier == 'thorough':
         for m in range(1, 13):
             for sp in spellings(m)[:4]:
